@@ -31,7 +31,8 @@ CHECKS = {
             ("R-CONTRACT", "r_contract", "run", ("quick", "thorough"))],
     "C17": [("R-STREAM", "r_stream", "run", ("quick", "thorough")),
             ("R-TMP.io", "r_tmp", "run_io", ("quick", "thorough")),
-            ("R-ALLOC.io", "r_alloc", "run_io", ("quick", "thorough"))],
+            ("R-ALLOC.io", "r_alloc", "run_io", ("quick", "thorough")),
+            ("R-TABIDX.digit", "r_tables", "run_digit_index", ("quick", "thorough"))],
     "C14": [("R-PURE", "r_assert", "run_pure", ("quick", "thorough")),
             ("R-CONSTASSERT", "r_assert", "run_constassert", ("quick", "thorough")),
             ("R-TMP.modes", "r_tmp", "run_modes", ("quick", "thorough")),
@@ -196,7 +197,9 @@ ASSUMPTIONS = {
     "R-ALIAS.mem": ["R-EXTENT refutes only when (write end - requested size) normalises to a positive constant in a linear-term domain; "
                     "data-dependent extents are counted as undecided", "callee write extents for mpn functions from spec table MPN_EXTENTS (manual)"],
     "R-TABIDX.digit": ["an index is a byte if it is an (unsigned char) conversion, a load through unsigned char *, a getc-family result, "
-                       "or a variable all of whose assignments are such; EOF handling of getc results is not decided"],
+                       "or a variable all of whose assignments are such, or a sum of such parts and constants that stays inside the table",
+                       "a getc result used as an index must have been compared with EOF (-1) on the path since it was read (must-dataflow; EOF == -1 "
+                       "as the source itself asserts)"],
     "R-TABLES.c16": ["tables are read from the linked LLVM IR; limit macros from `clang -E -dM` of each unit that defines them"],
     "R-TABLES.logic": ["bitwise operators are bit-parallel, so the 1-bit truth table determines the per-limb function"],
     "R-DIVZERO": ["the division family and each function's divisor parameter are taken from the manual (spec/division_api.tsv)",
